@@ -10,6 +10,7 @@ known_findings.json F-C05-1 and the witness below, which is the former counterex
 import Bourse.Model.Ops
 import Bourse.Lemmas.MatchFrame
 import Bourse.Lemmas.Reach
+import Bourse.Lemmas.RefineStep
 
 namespace Bourse.Props.C05
 open Bourse
@@ -164,5 +165,16 @@ theorem tie_requeue_goes_behind :
       .modify 0 none (some 5), .cap .bid 7 3 none]
     (b.trades.map (fun t => (t.passive, t.vol))) = [(1, 5), (0, 2)] := by
   decide
+
+/-- **Execution order under ties is queueing order.** For every valid fault-free history — whatever
+the clock did — the ids in each side's keyed queue, read in key order, are exactly the reference
+engine's FIFO list for that side. The reference engine never looks at a clock value to order its
+list (`Ref.enqueue` walks the list comparing prices only), so equal timestamps cannot reorder,
+merge or drop anything. -/
+theorem queues_are_reference_fifo (t0 tick : Nat) (trading : Bool) (ht : 0 < tick) (ops : List Op)
+    (hv : ∀ op ∈ ops, ValidOp op) (hnf : NoFault (Book.new t0 tick trading) ops) (sd : Side) :
+    absq (((Book.new t0 tick trading).run ops).side sd) = (Ref.run (Ref.init t0 tick trading) ops).queue sd := by
+  rw [← abs_queue, ← abs_new]
+  exact congrArg (fun s => s.queue sd) (run_refines (inv_new t0 tick trading ht) ops hv hnf)
 
 end Bourse.Props.C05
